@@ -26,10 +26,8 @@ def decValue (src : Bytes) : R (Val × Bytes) :=
 def encPoint (p : Point) : Bytes := encTimestamp p.t ++ encValue p.v
 /-- ⟦Point.TakeFrom⟧ -/
 def decPoint (src : Bytes) : R (Point × Bytes) :=
-  if src.length < 12 then .error (.wantLarger 12) else do
-    let (t, src) ← decTimestamp src
-    let (v, src) ← decValue src
-    return (⟨t, v⟩, src)
+  if src.length < 12 then .error (.wantLarger 12)
+  else .ok (⟨de32 src, de64 (src.drop 4)⟩, src.drop 12)
 
 /-! ### lists -/
 
@@ -40,10 +38,13 @@ def encValues : List Val → Bytes
 /-- decode exactly `n` values (the loop of ⟦TimeSeries.TakeFrom⟧) -/
 def decValues : Nat → Bytes → R (List Val × Bytes)
   | 0, src => .ok ([], src)
-  | n+1, src => do
-    let (v, src) ← decValue src
-    let (vs, src) ← decValues n src
-    return (v :: vs, src)
+  | n+1, src =>
+    match decValue src with
+    | .error e => .error e
+    | .ok (v, src) =>
+      match decValues n src with
+      | .error e => .error e
+      | .ok (vs, src) => .ok (v :: vs, src)
 
 def encPointsBody : List Point → Bytes
   | [] => []
@@ -51,10 +52,13 @@ def encPointsBody : List Point → Bytes
 
 def decPointsBody : Nat → Bytes → R (List Point × Bytes)
   | 0, src => .ok ([], src)
-  | n+1, src => do
-    let (p, src) ← decPoint src
-    let (ps, src) ← decPointsBody n src
-    return (p :: ps, src)
+  | n+1, src =>
+    match decPoint src with
+    | .error e => .error e
+    | .ok (p, src) =>
+      match decPointsBody n src with
+      | .error e => .error e
+      | .ok (ps, src) => .ok (p :: ps, src)
 
 /-- `uint64` big-endian of a length -/
 def be64Nat (n : Nat) : Bytes := be32 (n / 4294967296 % 4294967296) ++ be32 (n % 4294967296)
@@ -92,18 +96,20 @@ def encSeries : Option Series → Bytes
 
 /-- ⟦TimeSeries.TakeFrom⟧ (repaired). The absent series decodes to the zero series. -/
 def decSeries (src : Bytes) : R (Series × Bytes) :=
-  if src.length < 12 then .error (.wantLarger 12) else do
-    let (f, src) ← decTimestamp src
-    let (u, src) ← decTimestamp src
-    let (st, src) ← decDuration src
-    if st = 0 ∧ f = u then return (⟨f, u, st, []⟩, src)
-    if st ≤ 0 then throw (.err .invalid)
-    if u < f then throw (.err .invalid)
-    let n := (Int.tdiv ((u : Int) - (f : Int)) st).toNat
-    let wanted := n * 8
-    if src.length < wanted then throw (.wantLarger (12 + wanted))
-    let (vs, src) ← decValues n src
-    return (⟨f, u, st, vs⟩, src)
+  if src.length < 12 then .error (.wantLarger 12) else
+  let f := de32 src
+  let u := de32 (src.drop 4)
+  let st := i32 (de32 (src.drop 8))
+  let src := src.drop 12
+  if st = 0 ∧ f = u then .ok (⟨f, u, st, []⟩, src) else
+  if st ≤ 0 then .error (.err .invalid) else
+  if u < f then .error (.err .invalid) else
+  let n := (Int.tdiv ((u : Int) - (f : Int)) st).toNat
+  let wanted := n * 8
+  if src.length < wanted then .error (.wantLarger (12 + wanted)) else
+  match decValues n src with
+  | .error e => .error e
+  | .ok (vs, src) => .ok (⟨f, u, st, vs⟩, src)
 
 def decSeriesAlloc (src : Bytes) : Nat :=
   if src.length < 12 then 0 else
@@ -122,12 +128,8 @@ def encArch (a : Arch) : Bytes := be32 a.offset ++ encDuration a.step ++ be32 a.
 
 /-- ⟦ArchiveInfo.TakeFrom⟧ -/
 def decArch (src : Bytes) : R (Arch × Bytes) :=
-  if src.length < 12 then .error (.wantLarger 12) else do
-    let off := de32 src
-    let src := src.drop 4
-    let (st, src) ← decDuration src
-    let n := de32 src
-    return (⟨off, st, n⟩, src.drop 4)
+  if src.length < 12 then .error (.wantLarger 12)
+  else .ok (⟨de32 src, i32 (de32 (src.drop 4)), de32 (src.drop 8)⟩, src.drop 12)
 
 def encArchs : List Arch → Bytes
   | [] => []
@@ -135,10 +137,13 @@ def encArchs : List Arch → Bytes
 
 def decArchs : Nat → Bytes → R (List Arch × Bytes)
   | 0, src => .ok ([], src)
-  | n+1, src => do
-    let (a, src) ← decArch src
-    let (as, src) ← decArchs n src
-    return (a :: as, src)
+  | n+1, src =>
+    match decArch src with
+    | .error e => .error e
+    | .ok (a, src) =>
+      match decArchs n src with
+      | .error e => .error e
+      | .ok (as, src) => .ok (a :: as, src)
 
 /-- ⟦Header⟧ -/
 structure Header where
@@ -200,21 +205,21 @@ def fillOffsets (as : List Arch) : List Arch := fillOffsetsFrom (firstOffset as.
 
 /-- ⟦Header.TakeFrom⟧ (repaired: size in 64 bits) -/
 def decHeader (o : FOps) (src : Bytes) : R (Header × Bytes) :=
-  if src.length < 16 then .error (.wantLarger 16) else do
-    let agg := de32 src
-    let src := src.drop 4
-    let (mr, src) ← decDuration src
-    let xff := UInt32.ofNat (de32 src)
-    let src := src.drop 4
-    let count := de32 src
-    let src := src.drop 4
-    if !validAgg agg then throw (.err .invalid)
-    if !o.xffValid xff then throw (.err .invalid)
-    let wanted := count * 12
-    if src.length < wanted then throw (.wantLarger (16 + wanted))
-    let (as, src) ← decArchs count src
-    if !validateArchs as then throw (.err .invalid)
-    return (⟨agg, mr, xff, count, as⟩, src)
+  if src.length < 16 then .error (.wantLarger 16) else
+  let agg := de32 src
+  let mr := i32 (de32 (src.drop 4))
+  let xff := UInt32.ofNat (de32 (src.drop 8))
+  let count := de32 (src.drop 12)
+  let src := src.drop 16
+  if !validAgg agg then .error (.err .invalid) else
+  if !o.xffValid xff then .error (.err .invalid) else
+  let wanted := count * 12
+  if src.length < wanted then .error (.wantLarger (16 + wanted)) else
+  match decArchs count src with
+  | .error e => .error e
+  | .ok (as, src) =>
+    if !validateArchs as then .error (.err .invalid) else
+    .ok (⟨agg, mr, xff, count, as⟩, src)
 
 def decHeaderAlloc (o : FOps) (src : Bytes) : Nat :=
   if src.length < 16 then 0 else
